@@ -57,4 +57,17 @@ theorem C10_timescale (e : Int) (h1 : -15 ≤ e) (h2 : e ≤ 0) :
 /-- outside that range the code panics (exponent below -15) — finding-free only because FST writers never emit it -/
 example : convertTimescale (-16) = none ∧ convertTimescale (-5) = some (10, -6) := by decide
 
+/-- **time index of a callback**: the forward-only cursor of `load_signals` (model `cursorAdvance`) reports a callback of
+time `t` at the FIRST table entry, at or after the cursor, that is not below `t` — for every table, in particular one in
+which a later value-change block repeats the last time of its predecessor: changes under the repeated entry join the
+first occurrence, and later changes are counted against the file's own chain (what `time_table()` returns) -/
+theorem C10_cursor_first (tt : List Nat) (t fuel idx : Nat) (hf : tt.length < idx + fuel)
+    (hex : ∃ j, idx ≤ j ∧ ∃ h : j < tt.length, t ≤ tt[j]) :
+    ∃ i, cursorAdvance tt idx t fuel = some i ∧ idx ≤ i ∧ (∃ h : i < tt.length, t ≤ tt[i]) ∧
+      ∀ k, idx ≤ k → k < i → ∃ h : k < tt.length, tt[k] < t :=
+  cursor_first tt t fuel idx hf hex
+
+/-- non-vacuity: the table `0,10,10,20` (time 10 repeated at a block boundary) -/
+example : cursorAdvance [0, 10, 10, 20] 1 10 5 = some 1 ∧ cursorAdvance [0, 10, 10, 20] 1 20 5 = some 3 := by decide
+
 end Wellen.Fst
